@@ -139,7 +139,8 @@ TEXT = {
     "C20": (
         "4/C20",
         "generated call histories x fault behaviours of fake executables vs a life-cycle reference machine",
-        "Wrappers are driven with fake tools (success, non-zero exit, garbage, hang, missing binary); each call must "
+        "Wrappers (in-process Application/WebApp, LocalApp, the MSA wrappers, Tantan, RNAfold, RNAplot, RNAalifold, "
+        "DSSP) are driven with fake tools (success, non-zero exit, garbage, hang, missing binary); each call must "
         "succeed or raise AppStateError exactly as the documented life cycle says, and after every terminal state "
         "clean-up count, cwd, temp files and child liveness are observed.",
     ),
